@@ -43,6 +43,7 @@ def run(tier, seed, flavour="plain"):
         "samples": m["samples"], "runtime_unit_pairs": rt, "static_unit_pairs": st, "dimensional_quantity_types": qt,
         "dimensionless_quantity_types": {t: c.get("dimensionless_types_" + t, 0) for t in T},
         "static_quantity_units": {t: c.get("static_quantity_units_" + t, 0) for t in T},
+        "constructor_spellings_checked": {k[21:]: v for k, v in c.items() if k.startswith("constructor_spellings_")},
         "agreements_within_one_ulp_but_not_bit_identical": c.get("not_bit_identical_but_within_one_ulp", 0),
         "maxima": m["maxima"], "lists": m["lists"],
     }
